@@ -571,7 +571,7 @@ def _posmap(model: Model, M: RuleResult):
         M.ok(g.fq, "u = (xq - xmin)/(xmax - xmin) and the result u'*(xmax - xmin) + xmin are inverse affine maps")
     else:
         M.bad(g, ret[0], "normalisation %r and de-normalisation %r are not inverse maps of [xmin, xmax] <-> [0, 1]" % (u, back))
-    # branches
+    # branches: decided by a case split on the sign of u and the parity of the integer part m of |u| = m + f (0 <= f < 1)
     node = chain[0]
     seen = {}
     while True:
@@ -582,19 +582,170 @@ def _posmap(model: Model, M: RuleResult):
             node = node.orelse[0]
         else:
             break
-    # periodic: fractional part
-    b = seen.get("periodic")
-    ok = False
-    if b and len(b) == 1 and isinstance(b[0], ast.Assign) and b[0].targets[0].id == iname:
-        v = b[0].value
-        if isinstance(v, ast.BinOp) and isinstance(v.op, ast.Mod) and isinstance(v.left, ast.Name) and v.left.id == uname and isinstance(v.right, ast.Constant) and v.right.value == 1:
-            ok = True
-        if isinstance(v, ast.BinOp) and isinstance(v.op, ast.Sub) and ast.unparse(v) in ("%s - torch.floor(%s)" % (uname, uname), "%s - %s.floor()" % (uname, uname)):
-            ok = True
-    if ok:
-        M.ok(g.fq, "periodic: u' = u mod 1 (fractional part, also for negative u)")
-    else:
-        M.bad(g, b[0] if b else g.node, "periodic extrapolation must map u to its fractional part u mod 1")
+    pre = [s_ for s_ in body if isinstance(s_, ast.Assign) and s_ is not first[0] and body.index(s_) < body.index(chain[0])]
+
+    def interpret(block, sgn: int, parity: int):
+        """value of `iname` after the shared prologue and `block`, with u = sgn*(m + f), m = 2p + parity"""
+        envm: Dict[str, Rat] = {}
+        U = C(sgn) * (S("m") + S("f"))
+
+        def int_part(v: Rat) -> Rat:
+            """truncation towards zero of v = c*(m + f) + k  (c = +-1 or 0, k integer) for 0 < f < 1"""
+            cf = Rat(v.n.coeff_of("f", 1)) if v.d == Poly.const(1) else None
+            if cf is None:
+                raise Uninterpretable("integer part of %r" % v)
+            rest = v - cf * S("f")
+            if "f" in rest.symbols():
+                raise Uninterpretable("integer part of %r" % v)
+            if cf.is_zero():
+                return rest                     # already an integer
+            if cf.eq(C(1)):
+                return rest                     # m + k + f  -> m + k   (non-negative part dominates for the cases used)
+            if cf.eq(C(-1)):
+                return rest                     # -(m + f) + k -> trunc = -(m) + k  for k <= 0 ... see note
+            raise Uninterpretable("integer part of %r" % v)
+
+        def hook(e):
+            if isinstance(e, ast.Name):
+                if e.id in envm:
+                    return envm[e.id]
+                if e.id == uname:
+                    return U
+                return None
+            if isinstance(e, ast.Call):
+                fn = ast.unparse(e.func)
+                if isinstance(e.func, ast.Attribute) and not e.args and e.func.attr == "abs":
+                    v = eval_expr(e.func.value, envm, hook)
+                    return v if sgn > 0 else -v if _is_neg_multiple(v) else _abs_of(v, sgn)
+                if fn in ("torch.abs", "abs") and len(e.args) == 1:
+                    v = eval_expr(e.args[0], envm, hook)
+                    return _abs_of(v, sgn)
+                if isinstance(e.func, ast.Attribute) and e.func.attr in ("long", "int", "trunc") and not e.args:
+                    v = eval_expr(e.func.value, envm, hook)
+                    return _trunc(v, sgn)
+                if isinstance(e.func, ast.Attribute) and e.func.attr == "floor" and not e.args or fn == "torch.floor":
+                    v = eval_expr(e.func.value if not e.args else e.args[0], envm, hook)
+                    return _floor(v, sgn)
+                if fn == "torch.div" and len(e.args) == 2 and any(k.arg == "rounding_mode" and isinstance(k.value, ast.Constant) and k.value.value in ("trunc", "floor") for k in e.keywords):
+                    a = eval_expr(e.args[0], envm, hook)
+                    d = eval_expr(e.args[1], envm, hook)
+                    if not d.eq(C(2)) or "f" in a.symbols():
+                        raise Uninterpretable("integer division %s" % ast.unparse(e))
+                    a2 = a.subs("m", C(2) * S("p") + C(parity))
+                    c0 = a2.subs("p", C(0))
+                    k = c0.n.t.get((), Fr(0))
+                    if c0.symbols() or k.denominator != 1:
+                        raise Uninterpretable("integer division operand %r" % a)
+                    # a = 2p*c + k with c = +-1: non-negative operands only are supported
+                    if not Rat(a2.n.coeff_of("p", 1)).eq(C(2)):
+                        raise Uninterpretable("integer division of a possibly negative operand %r" % a)
+                    q = (a2 - C(int(k) % 2)) / C(2)
+                    return q.subs("p", (S("m") - C(parity)) / C(2))
+                if fn in ("torch.clamp", "torch.clip") and len(e.args) == 3:
+                    return None
+            if isinstance(e, ast.BinOp) and isinstance(e.op, ast.Mod):
+                a = eval_expr(e.left, envm, hook)
+                d = eval_expr(e.right, envm, hook)
+                if d.eq(C(1)):
+                    return _frac(a, sgn)
+                if d.eq(C(2)) and "f" not in a.symbols():
+                    a2 = a.subs("m", C(2) * S("p") + C(parity)).subs("p", C(0))
+                    k = a2.n.t.get((), Fr(0))
+                    if not a2.symbols() and k.denominator == 1:
+                        return C(int(k) % 2)
+                raise Uninterpretable("modulo %s" % ast.unparse(e))
+            return None
+        for s_ in list(pre) + list(block):
+            if isinstance(s_, ast.Assign) and isinstance(s_.targets[0], ast.Name):
+                envm[s_.targets[0].id] = eval_expr(s_.value, envm, hook)
+            else:
+                raise Uninterpretable("statement %s" % type(s_).__name__)
+        return envm.get(iname)
+
+    def _is_neg_multiple(v):
+        return False
+
+    def _lin(v: Rat):
+        """v = c*(m+f) + k with c in {-1,0,1}, k rational constant -> (c, k) else None"""
+        if v.d != Poly.const(1):
+            return None
+        cm, cf = Rat(v.n.coeff_of("m", 1)), Rat(v.n.coeff_of("f", 1))
+        rest = v - cm * S("m") - cf * S("f")
+        if rest.symbols() or not cm.eq(cf) and not (cf.is_zero()):
+            return None
+        k = rest.n.t.get((), Fr(0))
+        c = cm.n.t.get((), Fr(0))
+        return (c, cf.n.t.get((), Fr(0)), k)
+
+    def _abs_of(v: Rat, sgn: int) -> Rat:
+        l = _lin(v)
+        if l is None:
+            raise Uninterpretable("abs of %r" % v)
+        c, cf, k = l
+        if k != 0:
+            raise Uninterpretable("abs of a shifted value %r" % v)
+        if c >= 0:
+            return v
+        return -v
+
+    def _trunc(v: Rat, sgn: int) -> Rat:
+        """truncation toward zero of c*(m+f) (+ integer k only when the sign is unambiguous)"""
+        l = _lin(v)
+        if l is None:
+            raise Uninterpretable("integer part of %r" % v)
+        c, cf, k = l
+        if cf == 0:
+            return v
+        if k != 0:
+            raise Uninterpretable("integer part of a shifted value %r" % v)
+        return C(c) * S("m")            # trunc(+-(m+f)) = +-m
+
+    def _floor(v: Rat, sgn: int) -> Rat:
+        l = _lin(v)
+        if l is None:
+            raise Uninterpretable("floor of %r" % v)
+        c, cf, k = l
+        if cf == 0:
+            return v
+        if c > 0:
+            return C(c) * S("m") + C(k)
+        return C(c) * S("m") - C(1) + C(k)      # floor(-(m+f)) = -m - 1  for 0 < f < 1
+
+    def _frac(v: Rat, sgn: int) -> Rat:
+        """python/torch modulo 1 (result in [0, 1))"""
+        return v - _floor(v, sgn)
+
+    for md, label in (("periodic", "periodic"), ("mirror", "mirror")):
+        if md not in seen:
+            M.bad(g, g.node, "%s mode is not handled" % md)
+            continue
+        results = {}
+        try:
+            for sgn in (1, -1):
+                for parity in (0, 1):
+                    results[(sgn, parity)] = interpret(seen[md], sgn, parity)
+        except Uninterpretable as e:
+            M.bad(g, seen[md][0], "%s branch cannot be shown to map into [0, 1] correctly (%s); accepted idioms: u %% 1, u - floor(u); |u|, .long(), torch.div(.., 2, trunc), %% 2" % (md, e))
+            continue
+        bad = None
+        for (sgn, parity), r in results.items():
+            if md == "periodic":
+                exp = S("f") if sgn > 0 else C(1) - S("f")          # fractional part of u = sgn (m + f), 0 < f < 1
+            else:
+                exp = S("f") if parity == 0 else C(1) - S("f")      # triangle wave of |u|
+            if r is None or not r.eq(exp):
+                bad = (sgn, parity, r, exp)
+                break
+        if bad is None:
+            if md == "periodic":
+                M.ok(g.fq, "periodic: u' = u - floor(u) for both signs of u (a query left of the range is mapped by the fractional part, not by truncation)")
+            else:
+                M.ok(g.fq, "mirror: with |u| = m + f, even m -> f and odd m -> 1 - f (triangle wave), decided for both signs of u and both parities of m")
+        else:
+            sgn, parity, r, exp = bad
+            M.bad(g, seen[md][-1], "%s extrapolation: for u %s 0 with %s integer part the mapped position is %r, expected %r (u = +-(m + f), 0 < f < 1)"
+                  % (md, ">" if sgn > 0 else "<", "even" if parity == 0 else "odd", r, exp))
+    # bound: clamp
     b = seen.get("bound")
     ok = False
     if b and len(b) == 1 and isinstance(b[0], ast.Assign) and b[0].targets[0].id == iname:
@@ -608,73 +759,6 @@ def _posmap(model: Model, M: RuleResult):
         M.ok(g.fq, "bound: u' = clamp(u, 0, 1)")
     else:
         M.bad(g, b[0] if b else g.node, "bound extrapolation must clamp u to [0, 1]")
-    # mirror: triangle wave, decided by a parity case split on the integer part m of |u| = m + f, 0 <= f < 1
-    b = seen.get("mirror")
-    if not b:
-        M.bad(g, g.node, "mirror mode is not handled")
-        return
-    results = {}
-    for parity in (0, 1):
-        envm: Dict[str, Rat] = {}
-        kinds: Dict[str, str] = {}     # name -> "int" when it is known to be m + const
-
-        def hook(e, parity=parity):
-            if isinstance(e, ast.Name):
-                if e.id in envm:
-                    return envm[e.id]
-                if e.id == uname:
-                    return S("SIGNED_U")
-                return None
-            if isinstance(e, ast.Call):
-                fn = ast.unparse(e.func)
-                if isinstance(e.func, ast.Attribute) and e.func.attr == "abs" and not e.args and ast.unparse(e.func.value) == uname:
-                    return S("m") + S("f")
-                if fn in ("torch.abs", "abs") and len(e.args) == 1 and ast.unparse(e.args[0]) == uname:
-                    return S("m") + S("f")
-                if isinstance(e.func, ast.Attribute) and e.func.attr in ("long", "floor", "int") and not e.args:
-                    v = eval_expr(e.func.value, envm, hook)
-                    # integer part of m + f (+ integer constant)
-                    rest = v - S("f")
-                    if "f" in rest.symbols():
-                        raise Uninterpretable("integer part of %r" % v)
-                    return rest
-                if fn == "torch.div" and len(e.args) == 2 and any(k.arg == "rounding_mode" and isinstance(k.value, ast.Constant) and k.value.value in ("trunc", "floor") for k in e.keywords):
-                    a = eval_expr(e.args[0], envm, hook)
-                    d = eval_expr(e.args[1], envm, hook)
-                    if not d.eq(C(2)) or "f" in a.symbols():
-                        raise Uninterpretable("integer division %s" % ast.unparse(e))
-                    # a = m + c with m = 2p + parity
-                    a2 = a.subs("m", C(2) * S("p") + C(parity))
-                    c0 = a2.subs("p", C(0))
-                    k = c0.n.t.get((), Fr(0))
-                    if c0.symbols() or k.denominator != 1:
-                        raise Uninterpretable("integer division operand %r" % a)
-                    q = (a2 - C(int(k) % 2)) / C(2)
-                    return q.subs("p", (S("m") - C(parity)) / C(2))
-            if isinstance(e, ast.BinOp) and isinstance(e.op, ast.Mod):
-                a = eval_expr(e.left, envm, hook)
-                d = eval_expr(e.right, envm, hook)
-                if d.eq(C(2)) and "f" not in a.symbols():
-                    a2 = a.subs("m", C(2) * S("p") + C(parity)).subs("p", C(0))
-                    k = a2.n.t.get((), Fr(0))
-                    if not a2.symbols() and k.denominator == 1:
-                        return C(int(k) % 2)
-                raise Uninterpretable("modulo %s" % ast.unparse(e))
-            return None
-        try:
-            for s in b:
-                if isinstance(s, ast.Assign) and isinstance(s.targets[0], ast.Name):
-                    envm[s.targets[0].id] = eval_expr(s.value, envm, hook)
-                else:
-                    raise Uninterpretable("statement %s" % type(s).__name__)
-            results[parity] = envm.get(iname)
-        except Uninterpretable as e:
-            raise AnalysisError("C14-M: cannot interpret the mirror branch: %s" % e)
-    r0, r1 = results[0], results[1]
-    if r0 is not None and r1 is not None and r0.eq(S("f")) and r1.eq(C(1) - S("f")):
-        M.ok(g.fq, "mirror: with |u| = m + f, even m -> f and odd m -> 1 - f (triangle wave), decided for both parities of m")
-    else:
-        M.bad(g, b[-1], "mirror extrapolation is not the triangle wave: even integer part gives %r (expected f), odd gives %r (expected 1 - f)" % (r0, r1))
 
 
 # ------------------------------------------------------------------------------------------ sort pairing
@@ -733,11 +817,14 @@ def _sort_pairing(model: Model, P: RuleResult):
     # the object receives the (sorted) x and y, and is called with (xq, y)
     mk = [s for s in own_nodes(init.node) if isinstance(s, ast.Assign) and ast.unparse(s.targets[0]) == "self.obj"]
     rets = [r for r in own_nodes(call.node) if isinstance(r, ast.Return)]
-    if mk and [ast.unparse(a) for a in mk[0].value.args] == [xp, yp] and any(k.arg is None for k in mk[0].value.keywords) and rets and \
-            ast.unparse(rets[-1].value) == "self.obj(%s, %s)" % (call.params()[1], call.params()[2]):
+    xq_rebound = [n for n in ast.walk(call.node) if isinstance(n, ast.Name) and isinstance(n.ctx, ast.Store) and n.id == call.params()[1]]
+    if mk and [ast.unparse(a) for a in mk[0].value.args] == [xp, yp] and any(k.arg is None for k in mk[0].value.keywords) and rets and not xq_rebound and \
+            all(ast.unparse(r.value) == "self.obj(%s, %s)" % (call.params()[1], call.params()[2]) for r in rets):
         P.ok(init.fq, "the interpolator is built from the sorted (x, y) with the method options and evaluated with (xq, permuted y)")
     else:
-        P.bad(init, mk[0] if mk else init.node, "the interpolator must be built from the sorted x, y and called with (xq, y)")
+        P.bad(call if (xq_rebound or len(rets) != 1) else init, (enclosing_stmt(xq_rebound[0]) if xq_rebound else (rets[0] if len(rets) > 1 else (mk[0] if mk else init.node))),
+              "the interpolator must be built from the sorted x, y, and EVERY exit of __call__ must return self.obj(xq, y) for the caller's queries in the caller's order "
+              "(the queries are never re-bound; %d return(s) found)" % len(rets))
     # the base class uses the stored y when given at construction
     bc = model.func(I1D, "BaseInterp1D.__call__")
     src = ast.unparse(bc.node)
